@@ -11,7 +11,7 @@ RUN_MODULE = "Run.Run_C09"
 GEN_FILES = ["Gen_types.v", "Gen_lint.v"]
 RULE = ("unroll: random lint-clean DAGs (1..4 inputs, 1..6 gates of all eight types, constants) x injective pairings of outputs to inputs "
         "with 0..3 state bits (random ones, and ALL pairings of small circuits), state outputs that are themselves primary inputs, "
-        "n in 1..4 (quick) / 1..6 (thorough), free inputs of the result <= 8 (quick) / 10 (thorough) so that all input sequences are enumerated; "
+        "n in 1..4 (quick) / 1..6 (thorough), free inputs of the result <= 7 (quick) / 10 (thorough) so that all input sequences are enumerated; "
         "sequential_unroll: DAGs with 1..3 spliced flops of one blackbox type (pins clk,d[,rst] -> q[,qn]), state feedback, unloaded Q, "
         "x all of add_flop_outputs, initial_values (None,'0','1','x',dict), remove_unloaded, ignore_pins; plus rejected calls (n=0, "
         "unknown state io, blackboxes) and name-stress circuits; non-trivial = at least one gate and n >= 1; distinct = canonical input hash")
@@ -19,7 +19,7 @@ EXPLANATION = ("models of unroll / sequential_unroll through the API model compa
                "sequential machine step by step for every valuation of the free inputs of the unrolled circuit")
 SHARD = 8
 HASHSEEDS = {"quick": [0, 1], "thorough": [0, 1]}
-MAX_FREE = {"quick": 8, "thorough": 10}
+MAX_FREE = {"quick": 7, "thorough": 10}
 
 
 def base(rng, n_in, n_gate, p_const=0.12):
@@ -192,7 +192,7 @@ def gen_seq_dict_orders(rng, tier):
 
 
 def generate(rng, tier):
-    nu, na, ns, nf = (90, 3, 60, 2) if tier == "quick" else (240, 8, 150, 5)
+    nu, na, ns, nf = (70, 2, 45, 1) if tier == "quick" else (240, 8, 150, 5)
     sc = float(os.environ.get("VERIF_SCALE", "1"))      # <1 only for mutant trials on a loaded machine
     nu, na, ns, nf = max(8, int(nu * sc)), max(1, int(na * sc)), max(8, int(ns * sc)), max(1, int(nf * sc))
     out = [gen_unroll(rng, tier) for _ in range(nu)]
